@@ -778,7 +778,8 @@ def cases(tier, rng):
             for one_based in (False, True):
                 plain = [a for a in anc if not (a[0] is not None and a[1] - int(one_based) == L[a[0]])]
                 batches = [[[[c1, p1, c2, p2, [], [], [1, 0]]]] for (c1, p1) in plain for (c2, p2) in plain]
-                for tril in ("reflect", "drop"):
+                # both actions on the tables of length <= 3, one (alternating) on those with a chromosome of length 4
+                for tril in (("reflect", "drop") if max(L) <= 3 else (("drop",) if one_based else ("reflect",))):
                     case = {"bins": bins, "opts": {"one_based": one_based, "tril": tril, "sort": False}, "batches": batches,
                             "kind": "single-allsegs"}
                     yield "records_top", case
